@@ -3,6 +3,7 @@ package props
 import (
 	"fmt"
 	"math"
+	"runtime"
 	"sort"
 	"strings"
 
@@ -52,10 +53,17 @@ type RegionsCase struct {
 	// truncated longer slice): the content beyond len is the caller's business.
 	StartsSpare int `json:"starts_spare_cap,omitempty"`
 	EndsSpare   int `json:"ends_spare_cap,omitempty"`
+	// A second, unrelated index built after the first and before any query (construction
+	// of one index must not disturb another that is still in use).
+	OtherStarts []int `json:"other_starts,omitempty"`
+	OtherEnds   []int `json:"other_ends,omitempty"`
+	// GOMAXPROCS during construction and queries (0: leave as is). An environment setting
+	// the answers must not depend on.
+	Procs int `json:"gomaxprocs,omitempty"`
 }
 
 func (rc *RegionsCase) size() int {
-	n := 2*len(rc.Starts) + len(rc.Schedule)
+	n := 2*len(rc.Starts) + len(rc.Schedule) + 2*len(rc.OtherStarts)
 	for _, t := range rc.Tasks {
 		n += 1 + 2*len(t)
 	}
@@ -73,6 +81,12 @@ func (rc *RegionsCase) String() string {
 	fmt.Fprintf(&b, "starts=%v ends=%v gran=%s ", rc.Starts, rc.Ends, rc.Gran)
 	if rc.StartsSpare > 0 || rc.EndsSpare > 0 {
 		fmt.Fprintf(&b, "spare_cap=%d/%d ", rc.StartsSpare, rc.EndsSpare)
+	}
+	if len(rc.OtherStarts) > 0 {
+		fmt.Fprintf(&b, "then_another_index(starts=%v ends=%v) ", rc.OtherStarts, rc.OtherEnds)
+	}
+	if rc.Procs > 0 {
+		fmt.Fprintf(&b, "GOMAXPROCS=%d ", rc.Procs)
 	}
 	for i, t := range rc.Tasks {
 		fmt.Fprintf(&b, "caller%d[", i)
@@ -219,9 +233,16 @@ func execC16Trace(c *Case, choose func(runnable []int, cur int, step int) int) (
 		}
 		return y
 	}
+	if rc.Procs > 0 {
+		defer runtime.GOMAXPROCS(runtime.GOMAXPROCS(rc.Procs))
+	}
 	func() {
 		defer func() { pan = recover() }()
 		idx = newIndex(withSpare(rc.Starts, rc.StartsSpare), withSpare(rc.Ends, rc.EndsSpare))
+		if len(rc.OtherStarts) > 0 && len(rc.OtherStarts) == len(rc.OtherEnds) {
+			other := newIndex(withSpare(rc.OtherStarts, 0), withSpare(rc.OtherEnds, 0))
+			other.At(0)
+		}
 	}()
 	if len(rc.Starts) != len(rc.Ends) {
 		if pan == nil {
@@ -439,6 +460,30 @@ func shrinkRegions(c *Case, try func(*Case) bool) bool {
 	if rc().StartsSpare > 0 || rc().EndsSpare > 0 {
 		d := c.Clone()
 		d.Regions.StartsSpare, d.Regions.EndsSpare = 0, 0
+		if try(d) {
+			any = true
+		}
+	}
+	if len(rc().OtherStarts) > 0 {
+		d := c.Clone()
+		d.Regions.OtherStarts, d.Regions.OtherEnds = nil, nil
+		if try(d) {
+			any = true
+		} else {
+			for len(rc().OtherStarts) > 1 {
+				e := c.Clone()
+				h := len(e.Regions.OtherStarts) / 2
+				e.Regions.OtherStarts, e.Regions.OtherEnds = e.Regions.OtherStarts[:h], e.Regions.OtherEnds[:h]
+				if !try(e) {
+					break
+				}
+				any = true
+			}
+		}
+	}
+	if rc().Procs > 0 {
+		d := c.Clone()
+		d.Regions.Procs = 0
 		if try(d) {
 			any = true
 		}
@@ -776,6 +821,25 @@ func RunC16(ctx *core.Ctx, r *core.Rng) {
 				rc.Ends = append(rc.Ends, 1)
 			}
 			ctx.Stats.Inc("fault_fired/newindex_unequal_lengths")
+		}
+		if r.Chance(0.3) { // a second index is built while the first is still in use
+			o := genRegionsCase(r, gran)
+			rc.OtherStarts, rc.OtherEnds = o.Starts, o.Ends
+			if len(rc.OtherStarts) == 0 {
+				rc.OtherStarts, rc.OtherEnds = []int{0, 2}, []int{5, 3}
+			}
+			ctx.Stats.Inc("fault_fired/another_index_built_before_the_queries")
+		}
+		if gran == "op" && r.Chance(0.0015) { // tens of thousands of intervals, with a GOMAXPROCS of its own
+			big := r.Range(16384, 21000)
+			rc.Starts, rc.Ends = nil, nil
+			for i := 0; i < big; i++ {
+				s0 := r.Range(-50, 1000)
+				rc.Starts = append(rc.Starts, s0)
+				rc.Ends = append(rc.Ends, s0+r.Range(-1, 30))
+			}
+			rc.Procs = core.Pick(r, []int{1, 3, 4, 5, 7, 8})
+			ctx.Stats.Inc("probe/index_over_16384_intervals")
 		}
 		if r.Chance(0.3) { // reusable buffers / truncated slices: spare capacity behind the arguments
 			rc.StartsSpare = core.Pick(r, []int{1, 2, len(rc.Starts) + len(rc.Ends), 2*len(rc.Starts) + 3, 64})
